@@ -5,7 +5,8 @@ from mc.worlds import cellcfg, cellmon, mastercfg
 from mc.worlds.cellcfg import T1, T2
 
 BUDGET = {'quick': 600, 'thorough': 2400}
-HASH_INSENSITIVE = True
+# (World-B configuration M2 iterates sets of server names: the thorough tier
+# repeats it under every hash seed; the World-A configurations are run once)
 DAY = 24 * 3600
 
 
